@@ -47,6 +47,11 @@ type c07Case struct {
 	Ops  []c07Op  `json:"ops"`
 }
 
+// long bodies: an object followed by kilobytes of trailing data (padding and a second document), and a long body that
+// is not JSON at all (an HTML page posted with a JSON content type)
+var c07LongTrailing = `{"name":"first"}` + strings.Repeat(" ", 3000) + `{"name":"mallory","age":1,"a":"leftover"}` + strings.Repeat("\n", 1200)
+var c07LongGarbage = strings.Repeat("<html><body>not json</body></html>", 120) + `{"name":"mallory"}`
+
 var addrRe = regexp.MustCompile(`0xc[0-9a-f]{6,}`)
 
 var watchKeys = []string{"k1", "k2", i18n.LangKey}
@@ -495,7 +500,7 @@ func genC07(rt *rapid.T, thorough bool) c07Case {
 			if err := model.JSONOf(cs.Root, cs.Input, &sb); err == nil && rapid.Bool().Draw(rt, "jvalid") {
 				js = sb.String()
 			} else {
-				js = rapid.SampledFrom([]string{"null", "[1]", `{"a":`, `"s"`, "", "form:name=%zz", "form:a=%", "form:x=1;y=2", "form:zzz=1"}).Draw(rt, "jbad")
+				js = rapid.SampledFrom([]string{"null", "[1]", `{"a":`, `"s"`, "", "form:name=%zz", "form:a=%", "form:x=1;y=2", "form:zzz=1", c07LongTrailing, c07LongGarbage}).Draw(rt, "jbad")
 				if js == "" {
 					js = " "
 				}
